@@ -12,6 +12,10 @@
 #include "bitserializer/serialization_detail/errors_handling.h"
 
 
+#if defined(BITSERIALIZER_VERIF)
+struct BitSerializerVerifAccess;
+#endif
+
 namespace BitSerializer::MsgPack {
 namespace Detail {
 
@@ -510,6 +514,10 @@ private:
 template <class TReader>
 class CMsgPackReadBinaryScope final : public CMsgPackScopeBase, public TArchiveScope<SerializeMode::Load>
 {
+#if defined(BITSERIALIZER_VERIF)
+	// Verification hook: lets the conformance harness project the private cursor state
+	friend struct ::BitSerializerVerifAccess;
+#endif
 public:
 	CMsgPackReadBinaryScope(size_t arraySize, TReader* msgPackReader, SerializationContext& serializationContext, CMsgPackScopeBase* parentScope = nullptr) noexcept
 		: CMsgPackScopeBase(parentScope)
@@ -574,6 +582,10 @@ private:
 template <class TReader>
 class CMsgPackReadArrayScope final : public CMsgPackScopeBase, public TArchiveScope<SerializeMode::Load>
 {
+#if defined(BITSERIALIZER_VERIF)
+	// Verification hook: lets the conformance harness project the private cursor state
+	friend struct ::BitSerializerVerifAccess;
+#endif
 public:
 	CMsgPackReadArrayScope(size_t arraySize, TReader* msgPackReader, SerializationContext& serializationContext, CMsgPackScopeBase* parentScope = nullptr) noexcept
 		: CMsgPackScopeBase(parentScope)
@@ -672,6 +684,10 @@ private:
 template <class TReader>
 class CMsgPackReadObjectScope final : public CMsgPackScopeBase, public TArchiveScope<SerializeMode::Load>
 {
+#if defined(BITSERIALIZER_VERIF)
+	// Verification hook: lets the conformance harness project the private cursor state
+	friend struct ::BitSerializerVerifAccess;
+#endif
 public:
 	CMsgPackReadObjectScope(size_t mapSize, TReader* msgPackReader, SerializationContext& serializationContext, CMsgPackScopeBase* parentScope = nullptr) noexcept
 		: CMsgPackScopeBase(parentScope)
@@ -881,6 +897,10 @@ private:
 /// </summary>
 class BITSERIALIZER_API MsgPackReadRootScope final : public MsgPackArchiveTraits, public TArchiveScope<SerializeMode::Load>
 {
+#if defined(BITSERIALIZER_VERIF)
+	// Verification hook: lets the conformance harness project the private cursor state
+	friend struct ::BitSerializerVerifAccess;
+#endif
 public:
 	MsgPackReadRootScope(std::string_view inputData, SerializationContext& serializationContext);
 	MsgPackReadRootScope(std::istream& inputStream, SerializationContext& serializationContext);
